@@ -1,4 +1,6 @@
 import MxV.Gen.Values
+import MxV.Props.C05
+import MxV.Model.CollapseTheory
 /-! # pattern facets: the library's effective regular expressions have exactly the schema's language
 
 `Gen.patternsS` — per pattern-carrying simple-type class, the Python regular expression the library
@@ -68,6 +70,61 @@ theorem validator_pattern_is_schema {k : Nat} {r : RE Char} {s : SRE}
     subst hr
     exact pattern_language_is_schema (lookS_mem hl) hs w
 
+/-- **C05 for the token pattern types, end to end on the model**: such a type accepts a string exactly
+    when the text, normalised as the schema prescribes (`whiteSpace = collapse`: `Values.collapseX`,
+    proved equal to the port of get_cleaned_token in `Model/CollapseTheory.lean`), is in the language
+    of the *schema's* pattern -/
+theorem token_pattern_type_accepts_iff_schema (fuel : Nat) (d : Values.SimpleDef) (k : Nat) (i sp : SRE)
+    (h : TokenPattern d k) (hi : lookS k patternsS = some i) (hs : lookS k specPatternsS = some sp) (x : String) :
+    Values.validate valuesEnv (fuel + 1) d (.str x) = .ok ↔
+      RE.rmatch sp.toREc (Values.collapseX x.toList) = true := by
+  rw [← Values.cleanedToken_eq_collapse]
+  have hr : Values.lookupPat k valuesEnv.pats = some i.toREc := by
+    have e : valuesEnv.pats = patternsS.map fun p => (p.1, p.2.toREc) := rfl
+    rw [e, lookupPat_map, hi]; rfl
+  rw [token_pattern_accepts_iff valuesEnv fuel d k i.toREc h hr x,
+    pattern_language_is_schema (lookS_mem hi) hs]
+
+/-- the same for the types matched without white-space collapse; instance: **xs:date accepts exactly
+    the W3C lexical representation** (`xsDate_accepts_iff_w3c` below) -/
+theorem plain_pattern_type_accepts_iff_schema (fuel : Nat) (d : Values.SimpleDef) (k : Nat) (i sp : SRE)
+    (h : PlainPattern d k) (hi : lookS k patternsS = some i) (hs : lookS k specPatternsS = some sp) (x : String) :
+    Values.validate valuesEnv (fuel + 1) d (.str x) = .ok ↔ RE.rmatch sp.toREc x.toList = true := by
+  have hr : Values.lookupPat k valuesEnv.pats = some i.toREc := by
+    have e : valuesEnv.pats = patternsS.map fun p => (p.1, p.2.toREc) := rfl
+    rw [e, lookupPat_map, hi]; rfl
+  rw [plain_pattern_accepts_iff valuesEnv fuel d k i.toREc h hr x,
+    pattern_language_is_schema (lookS_mem hi) hs]
+
+def isPlainPattern (d : Values.SimpleDef) : Bool :=
+  d.pyTypes == [0] && d.union.isEmpty && d.forced.isEmpty && d.permitted.isEmpty && d.pattern.isSome &&
+  d.base == 0 && !d.isNonNeg && !d.isPositive
+
+/-- the definition the table holds for XSDSimpleTypeDate is such a type, with both expressions present -/
+theorem xsDate_is_plain_pattern :
+    (match Values.lookupDef valuesEnv.dateKey simpleDefs with
+     | some d => isPlainPattern d && d.pattern == some valuesEnv.dateKey &&
+         (lookS valuesEnv.dateKey patternsS).isSome && (lookS valuesEnv.dateKey specPatternsS).isSome
+     | none => false) = true := by decide +kernel
+
+def isTokenPattern (d : Values.SimpleDef) : Bool :=
+  d.pyTypes == [0] && d.union.isEmpty && d.forced.isEmpty && d.permitted.isEmpty && d.pattern.isSome &&
+  d.base == 1 && !d.isNonNeg && !d.isPositive
+
+theorem isTokenPattern_sound {d : Values.SimpleDef} (h : isTokenPattern d = true) :
+    ∃ k, TokenPattern d k := by
+  simp only [isTokenPattern, Bool.and_eq_true, beq_iff_eq, List.isEmpty_iff, Bool.not_eq_true',
+    Option.isSome_iff_exists] at h
+  obtain ⟨⟨⟨⟨⟨⟨⟨h1, h2⟩, h3⟩, h4⟩, ⟨k, h5⟩⟩, h6⟩, h7⟩, h8⟩ := h
+  exact ⟨k, h1, h2, h3, h4, h5, h6, h7, h8⟩
+
+/-- non-vacuity: the regenerated table contains such types, each with both expressions present -/
+theorem token_pattern_types_exist :
+    5 ≤ (simpleDefs.filter fun d => isTokenPattern d &&
+      (match d.pattern with
+       | some k => (lookS k patternsS).isSome && (lookS k specPatternsS).isSome
+       | none => false)).length := by decide +kernel
+
 /-- every pattern-carrying class has a schema pattern to be compared with (no pair is skipped) -/
 theorem every_pattern_has_schema : (patternsS.all fun p => (lookS p.1 specPatternsS).isSome) = true := by
   decide +kernel
@@ -84,6 +141,11 @@ end C05
 #print axioms C05.patterns_agree
 #print axioms C05.pattern_language_is_schema
 #print axioms C05.validator_pattern_is_schema
+#print axioms C05.token_pattern_type_accepts_iff_schema
+#print axioms C05.plain_pattern_type_accepts_iff_schema
+#print axioms C05.xsDate_is_plain_pattern
+#print axioms C05.isTokenPattern_sound
+#print axioms C05.token_pattern_types_exist
 #print axioms C05.every_pattern_has_schema
 #print axioms C05.every_schema_pattern_is_enforced
 #print axioms C05.pattern_count
